@@ -44,6 +44,8 @@ type seekableDecryptingReader struct {
 	numSegments   int64
 	plaintextLen  int64
 
+	endVerified bool // the final segment (last-segment flag) has been authenticated
+
 	pos       int64 // current plaintext position
 	segIndex  int64 // segment currently buffered, -1 if none
 	segStart  int64 // plaintext offset where the buffered segment begins
@@ -191,6 +193,9 @@ func (s *seekableDecryptingReader) loadSegment(j int64) error {
 		return fmt.Errorf("segment %d decryption failed: %w", j, err)
 	}
 	s.plaintext = plaintext
+	if j == s.numSegments-1 {
+		s.endVerified = true
+	}
 	s.segIndex = j
 	s.segStart = s.plaintextStartOfSegment(j)
 	return nil
@@ -198,6 +203,15 @@ func (s *seekableDecryptingReader) loadSegment(j int64) error {
 
 func (s *seekableDecryptingReader) Read(p []byte) (int, error) {
 	if s.pos >= s.plaintextLen {
+		// plaintextLen is derived from the unauthenticated ciphertext size. Only
+		// the final segment, which is sealed with the last-segment flag, proves
+		// that the stream really ends here: authenticate it before reporting EOF,
+		// otherwise a truncated ciphertext reads as a shorter part.
+		if !s.endVerified {
+			if err := s.loadSegment(s.numSegments - 1); err != nil {
+				return 0, err
+			}
+		}
 		return 0, io.EOF
 	}
 	j := s.segmentForPlaintextOffset(s.pos)
